@@ -220,7 +220,13 @@ func (e *Exec) binop(st *BState, op token.Token, x, y SV, t types.Type, rt types
 		case token.SUB:
 			r = wrapFor(t, sub(a, b))
 		case token.MUL:
-			r = wrapFor(t, app(SInt, "*", a, b))
+			if isIntLit(a) || isIntLit(b) {
+				r = wrapFor(t, app(SInt, "*", a, b))
+			} else {
+				// variable * variable: the identity  a*b = b==1 ? a : b==-1 ? -a : a*b  spares the solvers the
+				// nonlinear term in the common "sign multiplier" shape
+				r = ite(eq(b, intLit(1)), a, ite(eq(b, intLit(-1)), wrapFor(t, app(SInt, "-", a)), wrapFor(t, app(SInt, "*", a, b))))
+			}
 		case token.QUO:
 			e.oblige(st, "nopanic.div", pos, not(eq(b, intLit(0))))
 			r = wrapFor(t, app(SInt, "tdiv", a, b))
